@@ -299,13 +299,23 @@ func (w *zzWorld) assertChunkHolds(c *message.UpstreamChunk, want []zzBuffered) 
 	}
 }
 
+// zzDeep widens the collection bounds of the step lemmas (thorough tier).
+var zzDeep = 0
+
+func zzC01bFlushDeep()   { zzDeep = 1; zzC01bFlush() }
+func zzC01cAcceptDeep()  { zzDeep = 1; zzC01cAccept() }
+func zzC03aReadDeep()    { zzDeep = 1; zzC03aRead() }
+func zzC04aAssignDeep()  { zzDeep = 1; zzC04aAssignDataID() }
+func zzC04bAssignUpDeep() { zzDeep = 1; zzC04bAssignUpstream() }
+func zzC04cFlushAckDeep() { zzDeep = 1; zzC04cFlushAck() }
+
 // C01.b / C02.a / C20.c / C20.e: one flush() is a conservation step.
 func zzC01bFlush() {
 	w := zzNewWorld(message.QoSReliable, &flushPolicyNone{}, newInmemSentStorage())
 	u := w.u
 	vf.AllMapOrders(true)
-	want := w.fillBuffer(2, 2)
-	w.fillAliases(1)
+	want := w.fillBuffer(2+zzDeep, 2+zzDeep)
+	w.fillAliases(1 + zzDeep)
 	total0 := vf.U64("total")
 	seq0 := vf.U32("seq")
 	u.totalDataPoints = total0
@@ -417,7 +427,7 @@ func zzC01cAccept() {
 	w := zzNewWorld(message.QoSReliable, policy, newInmemSentStorage())
 	u := w.u
 	vf.AllMapOrders(true)
-	have := w.fillBuffer(1, 2)
+	have := w.fillBuffer(1+zzDeep, 2+zzDeep)
 	// the buffered payload size is an arbitrary value not yet over the threshold (the invariant of a
 	// stream that has not cut yet); point payloads themselves stay tiny
 	p0 := vf.U32("buffered.size")
